@@ -53,6 +53,7 @@ FAULTS = {
                          "register"],
 }
 KA_PERIOD = 5.0
+KA = {"user:spot": 5.0, "user:cross": 7.0, "user:isolated:BTCUSDT": 4.0}   # configured per account kind
 
 
 def plan(prop: str, tier: str) -> Plan:
@@ -113,7 +114,7 @@ def build_scenario(r, kind: str, seq: List[str]) -> Dict[str, Any]:
     for _ in range(r.randint(1, 3)):
         t += 1.2
         steps.append({"at": round(t, 3), "do": "msg", "pick": r.randrange(100)})
-    horizon = t + 2 * KA_PERIOD + 4
+    horizon = t + 2 * max(KA.values()) + 4
     return {"kind": kind, "channels": channels_for(kind, r), "steps": steps, "horizon": round(horizon, 3),
             "backoff": r.choice([1, 1, 2, 0.5]) if kind == "generic" else 1, "faults": list(seq)}
 
@@ -207,9 +208,9 @@ class BinanceAdapter(Adapter):
         adapter = self
         ov = {"api": {"http": {"base_url": "http://x/"},
                       "websockets": {"base_url": "ws://x/",
-                                     "spot": {"user_data_stream": {"heartbeat": KA_PERIOD}},
-                                     "cross_margin": {"user_data_stream": {"heartbeat": KA_PERIOD}},
-                                     "isolated_margin": {"user_data_stream": {"heartbeat": KA_PERIOD}}}}}
+                                     "spot": {"user_data_stream": {"heartbeat": KA["user:spot"]}},
+                                     "cross_margin": {"user_data_stream": {"heartbeat": KA["user:cross"]}},
+                                     "isolated_margin": {"user_data_stream": {"heartbeat": KA["user:isolated:BTCUSDT"]}}}}}
         self.ex = bex.Exchange(d, "k", "s", session=session, config_overrides=ov)
         self.stream_of: Dict[str, str] = {}
         for ch in sc["channels"]:
@@ -599,8 +600,8 @@ class Run:
                 out.append(("unknown_event", f"event with id {u} on {chans} was never sent"))
         # O3 keep-alive cadence per listen key
         if sc["kind"] == "binance":
-            bound = KA_PERIOD + 1.0 + self.max_rest_delay
             for i, (t_s, cid, ch, key) in enumerate(self.key_subscriptions):
+                bound = KA.get(ch, KA_PERIOD) + 1.0 + self.max_rest_delay
                 c = peer.conns[cid]
                 end = c.closed_at if c.closed_at is not None else T
                 later = [t for (t, c2, ch2, k2) in self.key_subscriptions[i + 1:] if ch2 == ch]
